@@ -382,7 +382,9 @@ impl Check for C19 {
                 let mut d = Dec::new(bytes);
                 let mut cfg = GenCfg::full(if phase == "renamed-small" { 18 } else { 60 });
                 cfg.hostile_names = true;
-                cfg.focus = [Focus::None, Focus::Generics, Focus::Closures, Focus::Scopes][(index % 4) as usize];
+                cfg.focus = [Focus::None, Focus::Generics, Focus::Closures, Focus::Scopes, Focus::Traits][(index % 5) as usize];
+                // traits, methods and trait objects with names the back end must escape
+                cfg.traits = cfg.focus == Focus::Traits || (index / 5) % 3 == 0;
                 let p = gen_program(&mut d, cfg, ctx);
                 let text = render(&p);
                 let expected = Expected::of(&p).to_json();
